@@ -3,7 +3,6 @@ package main
 import (
 	"bufio"
 	"fmt"
-	"io"
 	"os"
 	"os/exec"
 	"strings"
@@ -73,10 +72,16 @@ func (d *implDriver) runOnce(ops []string, flushEach bool) []string {
 	if err != nil {
 		return nil
 	}
-	cmd.Stderr = io.Discard
+	stderrTail := &tailBuffer{max: 1500}
+	cmd.Stderr = stderrTail
 	if err := cmd.Start(); err != nil {
 		return nil
 	}
+	defer func() {
+		if t := strings.TrimSpace(stderrTail.String()); t != "" {
+			lastChildStderr.Store(t)
+		}
+	}()
 	track(cmd, true)
 	defer track(cmd, false)
 	go func() {
@@ -145,23 +150,32 @@ func (d *implDriver) run(ops []string) []string {
 			flush = true
 		}
 	}
-	// an op on which the child died is run once more, alone in a fresh child: a decoder that kills
-	// the process does so again; a child that fell victim to the machine (memory pressure from
-	// whatever else is running, a stalled scheduler) does not
+	// an op on which the child died is run again, alone in a fresh child: a decoder that kills the
+	// process does so again; a child that fell victim to the machine (memory pressure from whatever
+	// else is running, a stalled scheduler) does not. The first few are given two more chances after
+	// a pause; when everything keeps dying the decoder is the reason, and pauses would only add up.
 	for i, a := range out {
 		if a != "crash" {
 			continue
 		}
-		if again := d.runOnce(ops[i:i+1], true); len(again) == 1 {
-			out[i] = again[0]
-			crashesNotReproduced.Add(1)
+		pauses := []time.Duration{0}
+		if retriedCrashes.Add(1) <= 4 {
+			pauses = []time.Duration{0, 5 * time.Second, 20 * time.Second}
+		}
+		for _, pause := range pauses {
+			time.Sleep(pause)
+			if again := d.runOnce(ops[i:i+1], true); len(again) == 1 {
+				out[i] = again[0]
+				crashesNotReproduced.Add(1)
+				break
+			}
 		}
 	}
 	return out
 }
 
 // crashesNotReproduced counts ops whose child died in a batch and which ran to an answer alone.
-var crashesNotReproduced atomic.Int64
+var crashesNotReproduced, retriedCrashes atomic.Int64
 
 // runSharded splits ops over several children running in parallel.
 func (d *implDriver) runSharded(ops []string, shards int) []string {
@@ -253,3 +267,29 @@ func summarize(s string, n int) string {
 }
 
 var _ = strings.TrimSpace
+
+// tailBuffer keeps the last max bytes written to it (what a dying child said last).
+type tailBuffer struct {
+	mu  sync.Mutex
+	max int
+	b   []byte
+}
+
+func (t *tailBuffer) Write(p []byte) (int, error) {
+	t.mu.Lock()
+	defer t.mu.Unlock()
+	t.b = append(t.b, p...)
+	if len(t.b) > t.max {
+		t.b = t.b[len(t.b)-t.max:]
+	}
+	return len(p), nil
+}
+
+func (t *tailBuffer) String() string {
+	t.mu.Lock()
+	defer t.mu.Unlock()
+	return string(t.b)
+}
+
+// lastChildStderr: the last thing any driver child wrote to stderr (a Go runtime that dies says why).
+var lastChildStderr atomic.Value
